@@ -19,10 +19,12 @@ package metrics
 
 import (
 	"bytes"
+	"fmt"
 	"sort"
 
 	jp "github.com/buger/jsonparser"
 	"github.com/cespare/xxhash"
+	"github.com/siglens/siglens/pkg/utils"
 	log "github.com/sirupsen/logrus"
 	"github.com/valyala/bytebufferpool"
 )
@@ -70,6 +72,17 @@ func (th *TagsHolder) Insert(key string, value []byte, vType jp.ValueType) {
 		newBuf := make([]tagEntry, initialTagCapacity)
 		th.entries = append(th.entries, newBuf...)
 	}
+}
+
+// Tag keys are used as the file names of the tags trees, so each one must be a
+// simple file name.
+func (th *TagsHolder) checkTagKeys() error {
+	for i := 0; i < th.idx; i++ {
+		if !utils.IsSimpleFileName(th.entries[i].tagKey) {
+			return fmt.Errorf("invalid tag key: %q", th.entries[i].tagKey)
+		}
+	}
+	return nil
 }
 
 func (th *TagsHolder) finish() {
